@@ -8,6 +8,8 @@
 //!     step = new <arg>*            (arity and argument types fixed by <kind>, see `sig`)
 //!          | set <field> <arg>     (field = index of the setter in declaration order)
 //!          | upd <n> <f64>*n       (Distribution1D::update(&[..]))
+//!          | default               (obj = <Kind as Default>::default(); also a valid first step)
+//!          | clone | copy          (obj = obj.clone() / a bitwise `Copy` of obj)
 //!   f64 arguments are 16 hex digits, integer arguments (usize / u64 / i64) are decimal; the probes are
 //!   f64 for the continuous kinds and i64 for the discrete ones.
 //!
@@ -36,9 +38,11 @@
 //! Bulk draws (reproducibility of `Distribution1D::sample_n` / `sample_matrix` from a fixed seed, at sizes where an
 //! implementation might switch strategy):
 //!
-//!   bulk <kind> <seed> <rows> <cols> <arg>*      cols = 0: `sample_n(rows)`; cols > 0: `sample_matrix(rows, cols)`
+//!   bulk <kind> <seed> <rows> <cols> new <arg>*  cols = 0: `sample_n(rows)`; cols > 0: `sample_matrix(rows, cols)`
+//!   bulk <kind> <seed> <rows> <cols> default     the same on `<Kind as Default>::default().clone()`
 //!
-//! Reply `= n <digest> <first 4 draws> <last 4 draws> <state> A <digest'> <state'> <digest''> <state''>`:
+//! Reply `= n <digest> <first 4 draws> <last 4 draws> <state> A <digest'> <state'> <digest''> <state''> T <digestT> <stateT>`
+//! (`T …` only in `default` mode; `T X` if the twin cannot be built); the `T` pair is the bulk call on the twin `new(parameters of the object)`:
 //! `alea::set_seed(seed)`, the bulk call, then `alea::get_seed()`; `digest` = FNV-1a over the 64-bit patterns of
 //! the n draws (NaN canonical), printed as 16 hex digits.  The primed pair is the same bulk call run a second time
 //! from the same seed, the double-primed pair is `n` single `sample()` calls from the same seed.  The property
@@ -237,6 +241,37 @@ macro_rules! each {
             D::Uniform($x) => $e,
         }
     };
+}
+
+fn default_of(kind: &str) -> R<D> {
+    Ok(match kind {
+        "bernoulli" => D::Bernoulli(Bernoulli::default()),
+        "beta" => D::Beta(Beta::default()),
+        "binomial" => D::Binomial(Binomial::default()),
+        "chisquared" => D::ChiSquared(ChiSquared::default()),
+        "discreteuniform" => D::DiscreteUniform(DiscreteUniform::default()),
+        "exponential" => D::Exponential(Exponential::default()),
+        "gamma" => D::Gamma(Gamma::default()),
+        "gumbel" => D::Gumbel(Gumbel::default()),
+        "normal" => D::Normal(Normal::default()),
+        "pareto" => D::Pareto(Pareto::default()),
+        "poisson" => D::Poisson(Poisson::default()),
+        "t" => D::T(T::default()),
+        "uniform" => D::Uniform(Uniform::default()),
+        _ => return Err(BadOp),
+    })
+}
+
+#[allow(clippy::clone_on_copy)]
+fn clone_in_place(d: &mut D) {
+    each!(d, x => *x = x.clone())
+}
+
+fn copy_in_place(d: &mut D) {
+    each!(d, x => {
+        let y = *x;
+        *x = y
+    })
 }
 
 fn update(d: &mut D, p: &[f64]) {
@@ -457,12 +492,24 @@ fn step(_: &mut (), t: &mut Toks) -> R<String> {
             let sg = sig(kind)?.as_bytes();
             let seed = t.u64()?;
             let (rows, cols) = (t.usize()?, t.usize()?);
-            let mut args = Vec::new();
-            for ty in sg {
-                args.push(parse_arg(t, *ty)?);
-            }
-            t.end()?;
-            let d = construct(kind, &args)?;
+            let mode = t.tok()?;
+            let d = match mode {
+                "default" => {
+                    t.end()?;
+                    let mut d = default_of(kind)?;
+                    clone_in_place(&mut d);
+                    d
+                }
+                "new" => {
+                    let mut args = Vec::new();
+                    for ty in sg {
+                        args.push(parse_arg(t, *ty)?);
+                    }
+                    t.end()?;
+                    construct(kind, &args)?
+                }
+                _ => return Err(BadOp),
+            };
             let n = if cols == 0 { rows } else { rows * cols };
             alea::set_seed(seed);
             let a = bulk_call(&d, rows, cols);
@@ -474,9 +521,22 @@ fn step(_: &mut (), t: &mut Toks) -> R<String> {
             let c: Vec<f64> = (0..n).map(|_| sample(&d)).collect();
             let sc = alea::get_seed();
             let k = a.len().min(4);
+            let params: Vec<A> = numbers(&debug(&d))[..sg.len()].to_vec();
+            let twin = if mode != "default" {
+                String::new()
+            } else {
+                match guard(|| construct(kind, &params).unwrap()) {
+                    None => " T X".to_string(),
+                    Some(tw) => {
+                        alea::set_seed(seed);
+                        let e = bulk_call(&tw, rows, cols);
+                        format!(" T {:016x} {}", fnv(&e), alea::get_seed())
+                    }
+                }
+            };
             Ok(ok(format!(
-                "{} {:016x} {} {} {} A {:016x} {} {:016x} {}",
-                a.len(), fnv(&a), show_fs(&a[..k]), show_fs(&a[a.len() - k..]), sa, fnv(&b), sb, fnv(&c), sc
+                "{} {:016x} {} {} {} A {:016x} {} {:016x} {}{}",
+                a.len(), fnv(&a), show_fs(&a[..k]), show_fs(&a[a.len() - k..]), sa, fnv(&b), sb, fnv(&c), sc, twin
             )))
         }
         "hist" => {
@@ -506,6 +566,17 @@ fn step(_: &mut (), t: &mut Toks) -> R<String> {
                             None => true,
                         }
                     }
+                    "default" => match guard(|| default_of(kind).unwrap()) {
+                        Some(d) => {
+                            obj = Some(d);
+                            false
+                        }
+                        None => true,
+                    },
+                    op @ ("clone" | "copy") => match obj.as_mut() {
+                        None => false,
+                        Some(d) => guard(|| if op == "clone" { clone_in_place(d) } else { copy_in_place(d) }).is_none(),
+                    },
                     "set" => {
                         let idx = t.usize()?;
                         if idx >= sg.len() {
